@@ -251,6 +251,21 @@ def run_case(ctx, i, rng):
                     queries(n)
                 except Exception:  # noqa: BLE001
                     ctx.count("queries_raised")
+        # composing onto an existing, longer file must give exactly the same text as composing to a fresh path
+        f = os.path.join(d, "over" + ext)
+        with open(f, "w") as fh:
+            fh.write(outs[0] + "\n" + "stale trailing content of a previous, longer file\n" * 20)
+        try:
+            sdn.compose(n, f, **opts)
+            ctx.count("composes")
+            ctx.count("overwrites_checked")
+            if normalise(open(f).read()) != normalise(outs[0]):
+                ctx.violation("overwrite-differs-from-fresh-file:%s" % ext, "composing onto an existing longer file leaves different content (%d vs %d bytes) | %s opts=%s" % (
+                    len(open(f).read()), len(outs[0]), what, opts))
+                return
+        except Exception as ex:  # noqa: BLE001
+            ctx.violation("compose-onto-existing-file-raised:%s" % ext, "%r at %s" % (ex, probes.innermost_frame(ex)))
+            return
         if not opts.get("definition_list") and opts.get("write_blackbox", True):
             try:
                 sdn.parse(os.path.join(d, "out0" + ext))
